@@ -9,6 +9,15 @@ import json, os, subprocess, sys, shutil, time
 cid, cdir, demo_dst, demo_run = sys.argv[1:5]
 checks = sys.argv[5:] or [cid]
 WT = "/tmp/ev-%s-%d" % (cid, os.getpid())
+# SEEDTEST_VERIF=auto: run the checks from a private driver directory (symlinks to /verif's files, own build/ and out/), so
+# that several evaluations, and the maintainer's own runs in /verif, do not share a build directory
+DEV = os.environ.get("SEEDTEST_VERIF", "/verif")
+if DEV == "auto":
+    DEV = "/tmp/devs-%d" % os.getpid()
+    os.makedirs(DEV, exist_ok=True)
+    for f in ("check", "checks.py", "harness", "vfkit", "known_findings.json", "replays", "checks.d", "shims"):
+        if not os.path.lexists(os.path.join(DEV, f)):
+            os.symlink(os.path.join("/verif", f), os.path.join(DEV, f))
 # SEEDTEST_RACE=1: the demonstration (and the existing tests) run under the race detector (schedule-free race demos)
 env = dict(os.environ, GOFLAGS="-mod=mod" + (" -race" if os.environ.get("SEEDTEST_RACE") else ""))
 
@@ -53,10 +62,13 @@ try:
     res["checks"] = {}
     for c in checks:
         t0 = time.time()
-        p = subprocess.run(["./check", c], cwd="/verif", capture_output=True, text=True, env=dict(os.environ, VERIF_REPO=WT))
+        p = subprocess.run(["./check", c], cwd=DEV, capture_output=True, text=True, env=dict(os.environ, VERIF_REPO=WT))
         lines = [l for l in p.stdout.splitlines() if l.strip() and not l.startswith("KNOWN-FINDING")]
         first = next((l.strip() for l in lines if not l.startswith(c + " ") and not l.startswith("VIOLATION")), "")
         res["checks"][c] = {"exit": p.returncode, "seconds": round(time.time() - t0, 1), "first_message": first[:400]}
 finally:
     subprocess.run(["git", "-C", "/repo", "worktree", "remove", "--force", WT], capture_output=True)
+    if DEV.startswith("/tmp/devs-"):
+        import shutil as _sh
+        _sh.rmtree(DEV, ignore_errors=True)
 print(json.dumps(res, indent=1))
